@@ -53,10 +53,27 @@ m = {
 }
 json.dump(m, open(os.path.join(VERIF, "MANIFEST.json"), "w"), indent=1)
 # known_findings.json = the union of the per-property findings lists (committed; never written at run time)
+# fix commits were made on builder branches and cherry-picked (-x) onto /repo's main: map to the main commit
+_log = subprocess.run(["git", "-C", "/repo", "log", "--format=%H%x00%B%x01"], capture_output=True, text=True).stdout
+_main = []
+for rec in _log.split("\x01"):
+    if "\x00" in rec:
+        h, b = rec.strip().split("\x00", 1)
+        _main.append((h.strip(), b))
+def to_main(c):
+    if not c: return c
+    for h, b in _main:
+        if h.startswith(c): return h[:7]
+    for h, b in _main:
+        for m in re.findall(r"cherry picked from commit ([0-9a-f]+)", b):
+            if m.startswith(c): return h[:7]
+    return c + " (builder branch)"
+import re
 kf = []
 for pid in ids:
     for f in P.PROPS.get(pid, {}).get("findings", []):
         e = dict(f); e["property"] = pid
+        if e.get("commit"): e["commit"] = to_main(e["commit"])
         if e.get("kind") == "fixed":
             e["what"] = "fixed: property=%s %s %s" % (pid, e.get("commit", "?"), e["what"]) if not e["what"].startswith("fixed:") else e["what"]
         kf.append(e)
